@@ -138,6 +138,7 @@ type hworld struct {
 	draining bool
 	topicSeen bool
 	restarts  int
+	oldInflight map[string]map[string]bool // channel -> bodies in the previous daemon's in-flight table after Exit
 	preN      int // publishes made by the preamble (HistCfg.Pre)
 }
 
@@ -1104,6 +1105,9 @@ func (h *hworld) Drain() {
 			clause := "C01 acknowledged message lost"
 			if h.restarts > 0 {
 				clause = "C05 C01 acknowledged unfinished message lost across a graceful restart"
+				if h.oldInflight[p.ch][p.m.body] {
+					clause = "C05 message in the hands of a delivery pump lost by a graceful shutdown"
+				}
 			}
 			h.bad(clause, "%s owed on channel %s (state before the drain: see history) was never delivered during the drain; ledger state now %s, attempts %d", p.m.body, p.ch, p.m.state, p.m.attempts)
 		}
@@ -1165,6 +1169,25 @@ func (h *hworld) restart() {
 	h.hist = append(h.hist, "EXIT+RESTART")
 	old.N.Exit()
 	old.exited = true
+	// post-mortem of the old daemon (see the C05 known finding): Channel.flush writes the
+	// in-flight table to the backend without clearing it, so a message that turns out LOST
+	// and sits in the old in-flight table was registered in flight after the flush - by a
+	// consumer's messagePump that took it off the queue (or off the just-flushed backend)
+	// while Exit was closing the channel
+	vrt.Quiesce() // (consumer pumps are told to stop, not waited for: let them finish)
+	if h.oldInflight == nil {
+		h.oldInflight = map[string]map[string]bool{}
+	}
+	for _, cn := range h.chanNames() {
+		if c := old.Channel(hTopic, cn); c != nil {
+			if h.oldInflight[cn] == nil {
+				h.oldInflight[cn] = map[string]bool{}
+			}
+			for _, m := range c.inFlightMessages {
+				h.oldInflight[cn][string(m.Body)] = true
+			}
+		}
+	}
 	// a restart takes time: without this the new process would start in the very same
 	// (virtual) millisecond, and its id generator - same node id, sequence back at 0 - would
 	// re-issue the ids of messages that are still around
@@ -1226,21 +1249,8 @@ func (h *hworld) restart() {
 			if int(t.Depth) != len(h.held) {
 				h.bad("C05 topic backlog not restored by the restart", "the topic held %d acknowledged message(s) of its own (%v) when shutdown was requested (paused=%v, channels %v); after the restart its depth is %d", len(h.held), h.held, h.tpaused, h.chanNames(), t.Depth)
 			}
-			for _, cs := range t.Channels {
-				lc := h.chans[cs.ChannelName]
-				if lc == nil || !lc.created {
-					continue
-				}
-				want := 0
-				for _, m := range lc.msgs {
-					if m.state == "queued" {
-						want++
-					}
-				}
-				if got := int(cs.Depth + cs.InFlightCount + cs.DeferredCount); got != want {
-					h.bad("C05 channel backlog not restored by the restart", "channel %s had %d unfinished message(s) when shutdown was requested; after the restart it holds %d", cs.ChannelName, want, got)
-				}
-			}
+			// (per channel the drain decides, message by message: a count would not tell a
+			// message lost in a delivery pump's hands - the known finding - from any other)
 		}
 	}
 }
